@@ -28,17 +28,21 @@ ToyLift(x) == Rev(x)          \* "decompression": y from x
 Secrets == << [i \in 1..32 |-> (i * 37 + 11) % 256],                      \* generic
               <<0, 0>> \o [i \in 1..30 |-> (i * 5 + 1) % 256],            \* two leading zero bytes (73 decimal digits)
               <<2>> \o [i \in 1..30 |-> (i * 3 + 7) % 256] \o <<1>>,      \* looks like a public key with +01
-              <<255>> \o [i \in 1..31 |-> 254] >>                         \* 78 decimal digits
+              <<255>> \o [i \in 1..31 |-> 254],                          \* 78 decimal digits
+              [i \in 1..32 |-> IF i % 3 = 0 THEN 97 + (i % 6) ELSE 48 + (i % 10)] >>   \* bytes that read as hex text
 
 MkKey(c, priv, si, comp, hd) ==
     [priv |-> priv, secret |-> IF priv THEN Secrets[si] ELSE <<>>, x |-> ToyX(Secrets[si]), y |-> ToyY(Secrets[si]),
      compressed |-> comp, network |-> c[1], wt |-> c[2], ms |-> c[3], hd |-> hd,
-     depth |-> IF hd THEN 255 ELSE 0, index |-> IF hd THEN <<128, 0, 1, 0>> ELSE <<0, 0, 0, 0>>,
-     fp |-> IF hd THEN <<0, 7, 0, 9>> ELSE <<0, 0, 0, 0>>,
-     chain |-> IF hd THEN <<0>> \o [i \in 1..31 |-> (i * 11) % 256] ELSE Rep(0, 32)]
+     depth |-> IF hd THEN 255 ELSE 0,
+     \* the key with the text-looking secret has text-looking chain data too: "0x1f", "12ab", 32 ASCII digits
+     index |-> IF ~hd THEN <<0, 0, 0, 0>> ELSE IF si = 5 THEN <<48, 120, 49, 102>> ELSE <<128, 0, 1, 0>>,
+     fp |-> IF ~hd THEN <<0, 0, 0, 0>> ELSE IF si = 5 THEN <<49, 50, 97, 98>> ELSE <<0, 7, 0, 9>>,
+     chain |-> IF ~hd THEN Rep(0, 32) ELSE IF si = 5 THEN [i \in 1..32 |-> 48 + (i % 10)]
+               ELSE <<0>> \o [i \in 1..31 |-> (i * 11) % 256]]
 
 \* full variety (all secret classes, plain and HD keys) for the networks in MCPlain, one HD key shape elsewhere
-Variety(n) == IF n \in MCPlain THEN ((1..Len(Secrets)) \X BOOLEAN) \ {<<2, FALSE>>, <<4, FALSE>>} ELSE {<<1, TRUE>>}
+Variety(n) == IF n \in MCPlain THEN ((1..Len(Secrets)) \X BOOLEAN) \ {<<2, FALSE>>, <<4, FALSE>>, <<5, FALSE>>} ELSE {<<1, TRUE>>}
 MCKeys == UNION { {MkKey(c, priv, v[1], comp, v[2]) : priv \in BOOLEAN, comp \in BOOLEAN, v \in Variety(c[1])} :
                   c \in {d \in DefConfigs : d[1] \in MCNets} }
 CoreHints == {NoHints, AllHints} \cup {[NoHints EXCEPT ![f] = TRUE] : f \in {"net", "priv", "comp", "wt", "ms"}}
@@ -163,6 +167,12 @@ Next == DoOp \/ Choose \/ DoExport \/ DoImport
 Spec == Init /\ [][Next]_vars
 
 (* ---------------- invariants ---------------- *)
+\* binary fields are opaque: bytes that happen to read as text come back byte for byte (implied by RoundTrip for the key
+\* with the text-looking secret and chain data; stated on its own for the fields of the extended formats)
+BinaryFieldsOpaque == (phase = "imported" /\ fmt \in ExtFmts /\ res.ok) =>
+                         res.fp = k.fp /\ res.chain = k.chain /\ res.index = k.index /\ (fmt = "xprv" => res.sec = k.secret)
+ASSUME TextKeyPresent == \E kk \in MCKeys : {"fp:hex-digits", "chain:digits", "index:0x-prefix", "secret:hex-digits"} \subseteq
+                                        FieldClasses(kk, {"fp", "chain", "index", "secret"})
 \* every public key has both encodings, and they read back to the same point with the flag the encoding shows
 ConversionIdentity == (phase = "imported" /\ fmt \in ConvFmts) =>
                          /\ res.ok /\ ~res.priv /\ res.x = k.x /\ res.y = k.y
